@@ -21,6 +21,13 @@ package nfsv4
 //@   props C14
 //@   lockeffect p.clientsLock -1
 
+// txOpen drops the program lock around VirtualOpenChild and tracks that in the
+// local isLocked; its deferred closure re-establishes the lock on every exit.
+//@ func (*compoundState).txOpen$1
+//@   props C14
+//@   inline
+//@   lockeffect p.lock +1 if !isLocked
+
 // ---------------------------------------------------------------------------
 // Byte-range conversions (C20)
 
